@@ -166,7 +166,9 @@ func hexGenerator(r *ev.Run, perByteCase bool) {
 
 // ---------------------------------------------------------------- acceptor side
 
-var acceptAlphabet = []byte{'0', 'a', 'F', 'g', ';', ' ', '\t', '\n', 'x'}
+// digits of every case, a non-digit letter, the comment character, the white-space characters (incl. vertical tab), and
+// control characters that are NOT white space (NUL, ESC): anything outside digits / white space / comments is rejected
+var acceptAlphabet = []byte{'0', 'a', 'F', 'g', ';', ' ', '\t', '\n', 'x', '\v', 0x00, 0x1b}
 
 type hexVerdict int
 
@@ -210,7 +212,7 @@ func refHex(s []byte, digits []byte) (v hexVerdict, out []byte, reason string) {
 		switch c {
 		case ';':
 			inComment = true
-		case ' ', '\t', '\r':
+		case ' ', '\t', '\r', '\v', '\f':
 		default:
 			d, ok := hexVal(c)
 			if !ok {
